@@ -397,7 +397,7 @@ size_t LzmaSynth::emit(RangeEnc &rc, SynthRng &rng, size_t nsym, size_t max_out,
 			unsigned len = 1;
 			rc.bit(m.is_match[m.state][ps0], 1);
 			if (how == 0) {
-				dist = (uint32_t)(avail0 + (rng.chance(750) ? 0 : rng.below(3)));
+				dist = (uint32_t)(avail0 + (rng.chance(600) ? 0 : rng.chance(500) ? rng.below(3) : rng.below(300)));
 				len = 2 + (unsigned)rng.below(6);
 				if (len > left) len = (unsigned)left;
 				rc.bit(m.is_rep[m.state], 0);
